@@ -104,11 +104,15 @@ def rescheduleAll (s : State κ τ) (e : Env) : List Nat → Except PyErr (State
     let (s', e') ← reschedule s e n
     rescheduleAll s' e' t
 
+/-- the initial workload of `schedule()`: one unit for every node whose collection is registered
+    (a replacement that is still collecting is skipped) -/
 def assignAll (s : State κ τ) (e : Env) : List Nat → Except PyErr (State κ τ × Env)
   | [] => .ok (s, e)
-  | n :: t => do
-    let (s', e') ← assignWorkUnit s e n
-    assignAll s' e' t
+  | n :: t =>
+    if !s.registered.contains n then assignAll s e t
+    else do
+      let (s', e') ← assignWorkUnit s e n
+      assignAll s' e' t
 
 /-- first test of the workload that is not completed, with its scope -/
 def firstPending : Workload κ τ → Option (κ × τ)
